@@ -9,6 +9,8 @@ mod tabs;
 mod terminal;
 pub mod util;
 mod vt;
+#[cfg(avt_verif)]
+pub mod verif;
 pub use cell::Cell;
 pub use color::Color;
 pub use line::Line;
